@@ -18,7 +18,7 @@ add("C03", "other", HYB + "PROVED: for table / order_rows / select_columns / ren
     PYVC_TB + "; frame-library calls under assumed contracts; " + BOUNDED_TB, "contract-based deductive verification of the executors' step glue (VCs from the real AST, z3) + run-time contract on the real function over an enumerated small scope (bounded stand-in) for the semantics", "§5 C03")
 add("C06", "proof", "the merge obligation `ext(merged,T) = ext(ops2, ext(ops1,T))` for all assignment maps and tables is discharged by z3 from the real body of try_to_merge_ops (6 paths), with finite-scope refutation + native replay when it fails; the merge DECISION of extend_parsed_ (region contract on the real statements: merged only for equal partition, order list, reverse and windowed-ness); builder forwarding / collapsing obligations (10 builders, every argument through an eliminated order_rows) as listed in the evidence.",
     PYVC_TB + "; ghost semantics: simultaneous-assignment extend, ev(e,T) depends only on cols(e) ∪ window columns (frame axiom)", "contract-based deductive verification: VCs generated from the real AST, discharged by z3/cvc5; counter-models replayed natively", "§5 C06")
-add("C08", "other", HYB + "PROVED for all inputs: Pandas and Polars _table_step always narrow/order the input to the declared columns (eager or lazy, extra or permuted input columns), _select_columns_step and _rename_columns_step hand the library exactly the node's arguments; BOUNDED: declared columns = returned columns at every node of every enumerated pipeline on Pandas, Polars, SQLite.",
+add("C08", "other", HYB + "PROVED for all inputs: Pandas and Polars _table_step always narrow/order the input to the declared columns (eager or lazy, extra or permuted input columns), _select_columns_step and _rename_columns_step hand the library exactly the node's arguments; the SQL terms written by select_rows / select_columns / rename / map_columns translations are exactly the requested, renamed or untouched columns (a '*' sub-query stays '*'). BOUNDED: declared columns = returned columns at every node of every enumerated pipeline on Pandas, Polars (both evaluation modes, wide inputs), SQLite.",
     PYVC_TB + "; frame-library calls under assumed contracts; " + BOUNDED_TB, "contract-based deductive verification of the column-shaping glue (VCs from the real AST, z3) + run-time contracts over an enumerated scope", "§5 C08")
 add("C18", "other", HYB + "PROVED: SQL ORDER BY/DESC/LIMIT text (limit=0 included) from SQLModel.order_to_near_sql and the arguments the Pandas and Polars order_rows steps hand to sort/head. BOUNDED: permutation / re-indexing invariance and order_rows sortedness+limit checked at run time on the real executors over the enumerated corpus (all permutations of ≤4 rows).",
     PYVC_TB + "; sort_values / sort / head / iloc under assumed library contracts; " + BOUNDED_TB, "contract-based deductive verification of the glue / text-generation obligations (VCs from the real AST, z3) + run-time contracts over an enumerated scope for the engine-dependent part", "§5 C18")
@@ -35,7 +35,7 @@ add("C05", "other", "bounded: every catalogued (method, backend) pair marked sup
     BOUNDED_TB + "; PostgreSQL column of the catalogue not executed", "run-time contract over an enumerated operand grid (bounded stand-in); no obligation proved", "§5 C05")
 add("C07", "other", HYB + "PROVED for all inputs: every replace_leaves (10 node classes) rebuilds its node from the replaced sources and every stored constructor argument, binding the builders' real signatures; BOUNDED: the four composition routes, associativity (by result) and dom/cod on the real code over enumerated pairs/triples.",
     PYVC_TB + "; " + BOUNDED_TB, "contract-based deductive verification of the rebuild obligations (VCs from the real AST, z3) + run-time contracts over an enumerated scope for the engine-dependent part", "§5 C07")
-add("C09", "other", HYB + "PROVED: SQLModel.project_to_near_sql names ALL group keys of the node in GROUP BY (quoted, in order, whatever later steps still use), every group key is a selected term, and there is no GROUP BY exactly without group keys; Pandas _select_rows_step returns a fresh index-free copy of the selected rows (what a following windowed extend relies on). BOUNDED: row counts of project / windowed extend against distinct key tuples of the materialised input (null = a key of its own, empty inputs, outputs overwritten or dropped later) on Pandas, Polars, SQLite.",
+add("C09", "other", HYB + "PROVED: SQLModel.project_to_near_sql names ALL group keys of the node in GROUP BY (quoted, in order, whatever later steps still use), every group key is a selected term, and there is no GROUP BY exactly without group keys; the builder merges a windowed extend into the previous extend only for the same partition / order / reverse / windowed-ness (region contract on extend_parsed_, counterexamples replayed natively); Pandas _select_rows_step returns a fresh index-free copy. BOUNDED: row counts of project / windowed extend against distinct key tuples of the materialised input (null = a key of its own, empty inputs, outputs overwritten or dropped later) on Pandas, Polars (lazy and eager evaluation), SQLite.",
     PYVC_TB + "; " + BOUNDED_TB, "contract-based deductive verification of the glue / text-generation obligations (VCs from the real AST, z3) + run-time contracts over an enumerated scope for the engine-dependent part", "§5 C09")
 add("C10", "proof", "for each of the 13 node classes: need_i(N,U) ⊆ columns_used_from_sources(U)[i] ⊆ columns(source_i) and one entry per source (incl. two accumulation-loop invariants); the recursion step columns_used_implementation_ is proved against the contract of its own recursive calls (records only grow, the node records the request, every source is re-asked with what the node needs given its FULL record). The induction over the DAG and the top-level columns_used() wrapper are a paper argument / bounded (perturb every unreported column in three ways; narrow the descriptions).",
     PYVC_TB + "; need_i is a spec function from the operator documentation; constructor facts as preconditions", "contract-based deductive verification (VCs from the real AST, z3) with a bounded perturbation ride-along", "§5 C10")
@@ -57,7 +57,7 @@ add("C20", "proof", "13 public methods of DataModelSpace and DBSpace proved agai
     PYVC_TB + "; database handle under ASSUMED keyed-store contracts; eval / CREATE TABLE AS as functions of the store contents", "contract-based deductive verification (whole-view postconditions, VCs from the real AST, z3) + bounded histories", "§5 C20")
 add("C21", "exploration", "bounded stand-in only: rank_to_average, last_observed_carried_forward, replicate_rows_query, def_multi_column_map against independent reference computations on all small tables, Pandas and SQLite.",
     BOUNDED_TB, "run-time contract over an enumerated small scope (bounded stand-in, not proved)", "§5 C21")
-add("C27", "other", HYB + "PROVED (region contract on the real SQLModel.extend_to_near_sql): the OVER clause lists ALL partition columns and ALL order columns in the declared order with DESC exactly on the reversed ones, and is absent exactly for row-wise extends. BOUNDED: each window function x partition/order/reverse specification x all small tables with total orders against a reference window evaluator, and consecutive extends with permuted order priority; backends per the live catalogue, Polars when it returns. The Pandas / Polars window code is not under contract.",
+add("C27", "other", HYB + "PROVED (region contracts on the real SQLModel.extend_to_near_sql and extend_parsed_): the OVER clause lists ALL partition columns and ALL order columns in the declared order with DESC exactly on the reversed ones and is absent exactly for row-wise extends; every computed term is sql(expression)+clause and declares the window columns as dependencies; two extends are merged only when partition, order list, reverse and windowed-ness coincide. BOUNDED: each window function x partition/order/reverse specification x all small tables with total orders against a reference window evaluator, and consecutive extends with permuted order priority; backends per the live catalogue, Polars when it returns. The Pandas / Polars window code is not under contract.",
     PYVC_TB + "; string + and join uninterpreted; " + BOUNDED_TB, "contract-based deductive verification of the glue / text-generation obligations (VCs from the real AST, z3) + run-time contracts over an enumerated scope for the engine-dependent part", "§5 C27")
 
 add("C22", "other", HYB + "PROVED (two loop invariants): check_args raises TypeError exactly when the switch is on, specifications are declared and a declared argument is missing or violates its specification (positional matched by parameter name, keyword by name); check_return exactly when the return value violates the return specification; `_check_spec` abstracted as None iff conforms(spec, value). BOUNDED: all specifications of depth <= 2 x argument/return values (scalars, pandas and polars frames with right/wrong/missing/extra/null columns): raises TypeError <=> the oracle conforms() says violated; switch off => never raises; result returned unchanged.",
